@@ -1396,6 +1396,73 @@ theorem mem_bindLinksOf (orig q : List Ent) (t b d : Nat) :
     · exact mem_bindLinks orig q t b d e h
     · exact mem_bindLinksOf orig q t b d es h
 
+/-! ### graph nodes -/
+
+theorem nodeUrl_page (orig q : List Ent) (i : Info) (pg : Nat) (h : nodeUrl orig q i = some pg) :
+    pg ∈ pageIds q := by
+  simp only [nodeUrl] at h
+  split at h
+  · split at h
+    · rename_i d _
+      split at h
+      · rename_i hl
+        simp only [Option.some.injEq] at h
+        simp only [nodeLinked, Bool.and_eq_true, List.contains_iff_mem] at hl
+        rw [← h]; exact hl.1.1
+      · simp at h
+    · simp at h
+  · split at h
+    · rename_i hl
+      simp only [Option.some.injEq] at h
+      simp only [nodeLinked, Bool.and_eq_true, List.contains_iff_mem] at hl
+      rw [← h]; exact hl.1.1
+    · split at h
+      · split at h
+        · split at h
+          · rename_i hl
+            simp only [Option.some.injEq] at h
+            simp only [nodeLinked, Bool.and_eq_true, List.contains_iff_mem] at hl
+            rw [← h]; exact hl.1.1
+          · simp at h
+        · simp at h
+      · simp at h
+
+mutual
+theorem mem_nodeUrls (orig q : List Ent) (x pg : Nat) :
+    (e : Ent) → (x, pg) ∈ e.nodeUrls orig q → pg ∈ pageIds q
+  | .mk i cs => by
+    intro h
+    simp only [Ent.nodeUrls, List.mem_append] at h
+    rcases h with h | h
+    · split at h
+      · split at h
+        · rename_i pg' hn
+          simp only [List.mem_singleton, Prod.mk.injEq] at h
+          rw [h.2]; exact nodeUrl_page orig q i pg' hn
+        · simp at h
+      · simp at h
+    · exact mems_nodeUrls orig q x pg cs h
+theorem mems_nodeUrls (orig q : List Ent) (x pg : Nat) :
+    (es : Ents) → (x, pg) ∈ es.nodeUrls orig q → pg ∈ pageIds q
+  | .nil => by simp [Ents.nodeUrls]
+  | .cons e rest => by
+    intro h
+    simp only [Ents.nodeUrls, List.mem_append] at h
+    rcases h with h | h
+    · exact mem_nodeUrls orig q x pg e h
+    · exact mems_nodeUrls orig q x pg rest h
+end
+
+theorem mem_nodeUrlsOf (orig q : List Ent) (x pg : Nat) :
+    (es : List Ent) → (x, pg) ∈ nodeUrlsOf orig q es → pg ∈ pageIds q
+  | [] => by simp [nodeUrlsOf]
+  | e :: es => by
+    intro h
+    simp only [nodeUrlsOf, List.mem_append] at h
+    rcases h with h | h
+    · exact mem_nodeUrls orig q x pg e h
+    · exact mem_nodeUrlsOf orig q x pg es h
+
 mutual
 theorem mem_visibleIds_ids (x : Nat) : (e : Ent) → x ∈ e.visibleIds → x ∈ e.ids
   | .mk i cs => by
